@@ -70,15 +70,48 @@ Proof.
   apply insert_sorted_increasing; [assumption|]. rewrite sort_z_In. assumption.
 Qed.
 
-Lemma norm_all_nonneg l n ps : forallb (fun i => 0 <=? i) l = true ->
-  opt_all (map (fun i => norm_index i n) l) = Some ps -> ps = l.
+(* Python list indexing and the normalisation of negative positions agree wherever the index is valid *)
+Lemma norm_index_norm_pos x n y : norm_index x n = Some y -> y = norm_pos n x /\ 0 <= y < n.
 Proof.
-  revert ps. induction l as [|x l IH]; intros ps Hnn E; cbn in *.
-  - injection E as <-. reflexivity.
-  - apply andb_true_iff in Hnn as [Hx Hnn].
-    unfold norm_index in E at 1. replace (x <? 0) with false in E by lia.
-    destruct ((0 <=? x) && (x <? n)) eqn:Hc; cbn [andb] in E; [|discriminate].
-    destruct (opt_all _) as [qs|] eqn:Eq; [|discriminate]. injection E as <-. f_equal. apply IH; [assumption|reflexivity].
+  unfold norm_index, norm_pos. destruct ((0 <=? x) && (x <? n)) eqn:E1.
+  - intros E. injection E as <-. replace ((- n <=? x) && (x <? 0)) with false by lia. lia.
+  - destruct ((x <? 0) && (0 <=? x + n)) eqn:E2; [|discriminate]. intros E. injection E as <-.
+    replace ((- n <=? x) && (x <? 0)) with true by lia. lia.
+Qed.
+
+Lemma norm_index_of_norm_pos x n : norm_index x n = None -> norm_index (norm_pos n x) n = None.
+Proof.
+  unfold norm_index, norm_pos. destruct ((0 <=? x) && (x <? n)) eqn:E1; [discriminate|].
+  destruct ((x <? 0) && (0 <=? x + n)) eqn:E2; [discriminate|]. intros _.
+  replace ((- n <=? x) && (x <? 0)) with false by lia. rewrite E1, E2. reflexivity.
+Qed.
+
+Lemma norm_all_map l n ps : opt_all (map (fun i => norm_index i n) l) = Some ps ->
+  ps = map (norm_pos n) l /\ forall x, In x ps -> 0 <= x < n.
+Proof.
+  revert ps. induction l as [|x l IH]; intros ps E; cbn in *.
+  - injection E as <-. split; [reflexivity|intros x []].
+  - destruct (norm_index x n) as [y|] eqn:Ex; [|discriminate].
+    destruct (opt_all _) as [qs|] eqn:Eq; [|discriminate]. injection E as <-.
+    destruct (IH qs eq_refl) as [-> Hr]. destruct (norm_index_norm_pos x n y Ex) as [-> Hy].
+    split; [reflexivity|]. intros z [<-|Hz]; [assumption|apply Hr; assumption].
+Qed.
+
+Lemma norm_all_none l n : opt_all (map (fun i => norm_index i n) l) = None ->
+  opt_all (map (fun i => norm_index i n) (sort_z (map (norm_pos n) l))) = None.
+Proof.
+  intros E. destruct (opt_all (map (fun i => norm_index i n) (sort_z (map (norm_pos n) l)))) as [qs|] eqn:E2; [|reflexivity].
+  exfalso. apply opt_all_Some in E2.
+  assert (Hall : forall x, In x l -> exists y, norm_index x n = Some y).
+  { intros x Hx. destruct (norm_index x n) as [y|] eqn:Ex; [exists y; reflexivity|]. exfalso.
+    apply norm_index_of_norm_pos in Ex.
+    assert (Hin : In (norm_pos n x) (sort_z (map (norm_pos n) l))) by (apply sort_z_In, in_map; assumption).
+    apply (in_map (fun i => norm_index i n)) in Hin. rewrite E2 in Hin.
+    apply in_map_iff in Hin as (y & Hy & _). congruence. }
+  clear - E Hall. revert E. induction l as [|x l IHl]; cbn; [discriminate|].
+  destruct (Hall x (or_introl eq_refl)) as [y ->].
+  destruct (opt_all (map (fun i => norm_index i n) l)) eqn:E; [discriminate|].
+  intros _. apply IHl; [intros z Hz; apply Hall; right; assumption|reflexivity].
 Qed.
 
 Lemma norm_all_in_range l n : (forall x, In x l -> 0 <= x < n) ->
@@ -104,16 +137,16 @@ Proof.
   apply in_seq in Hy. lia.
 Qed.
 
-Lemma asc_key_positions (k : ckey) n ps : 0 <= n -> walk_dom k = true -> key_positions k n = Ok ps ->
-  exists ps', key_positions (asc_key k n) n = Ok ps' /\ increasing ps' /\
+Lemma asc_key_positions (k : ckey) n ps : 0 <= n -> walk_dom k n = true -> key_positions k n = Ok ps ->
+  exists ps', key_positions (asc_key_with true k n) n = Ok ps' /\ increasing ps' /\
               (forall x, In x ps' <-> In x ps) /\ (forall x, In x ps' -> 0 <= x < n).
 Proof.
   intros Hn Hdom Hk.
   assert (Hrange : forall x, In x ps -> 0 <= x < n).
   { destruct (key_positions_ok k n ps Hn) as [_ H]; [|assumption|exact H].
-    destruct k; cbn; try exact I. intros qs Eq. cbn in Hdom. apply andb_true_iff in Hdom as [Hnn Hnd].
-    rewrite (norm_all_nonneg l n qs Hnn Eq). apply nodupb_NoDup. assumption. }
-  destruct k as [|i|s|l|m]; cbn [asc_key].
+    destruct k; cbn; try exact I. intros qs Eq. cbn in Hdom.
+    destruct (norm_all_map l n qs Eq) as [-> _]. apply nodupb_NoDup. assumption. }
+  destruct k as [|i|s|l|m]; cbn [asc_key_with].
   - exists ps. split; [assumption|]. cbn in Hk. injection Hk as <-.
     split; [apply seq_increasing|]. split; [tauto|apply Hrange].
   - exists ps. split; [assumption|]. cbn in Hk. destruct (norm_index i n); [|discriminate]. injection Hk as <-.
@@ -122,10 +155,10 @@ Proof.
     destruct (asc_slice_t_positions s n qs Hn Eq) as (ps' & E1 & E2 & E3).
     exists ps'. cbn [key_positions]. rewrite E1. split; [reflexivity|]. split; [assumption|]. split; [assumption|].
     intros x Hx. apply Hrange. apply E3. assumption.
-  - cbn in Hdom. apply andb_true_iff in Hdom as [Hnn Hnd].
+  - cbn in Hdom.
     cbn in Hk. destruct (opt_all _) as [qs|] eqn:Eq; [|discriminate]. injection Hk as <-.
-    pose proof (norm_all_nonneg l n qs Hnn Eq) as ->.
-    exists (sort_z l). cbn [key_positions].
+    destruct (norm_all_map l n qs Eq) as [-> _].
+    exists (sort_z (map (norm_pos n) l)). cbn [key_positions].
     rewrite norm_all_in_range by (intros x Hx; apply Hrange; apply sort_z_In; assumption).
     split; [reflexivity|]. split; [apply sort_z_increasing, nodupb_NoDup; assumption|].
     split; [intros x; apply sort_z_In|].
@@ -133,6 +166,26 @@ Proof.
   - exists ps. split; [assumption|]. cbn in Hk. destruct (_ =? n); [|discriminate]. injection Hk as <-.
     split; [apply mask_positions_increasing|]. split; [tauto|apply Hrange].
 Qed.
+
+(* an invalid key stays invalid (same exception class) when it is made ascending *)
+Lemma asc_key_positions_err (k : ckey) n e : walk_dom k n = true -> key_positions k n = Err e ->
+  key_positions (asc_key_with true k n) n = Err e.
+Proof.
+  intros Hdom Hk. destruct k as [|i|s|l|m]; cbn [asc_key_with]; try assumption.
+  - cbn in Hk. destruct (positions s n) as [qs|] eqn:Eq; [discriminate|].
+    exfalso. unfold positions, slice_indices in Eq. cbn in Hdom.
+    destruct (s_step s) as [st|]; cbn in Eq; [|discriminate]. destruct (st =? 0); discriminate.
+  - cbn in Hk |- *. destruct (opt_all (map (fun i => norm_index i n) l)) as [qs|] eqn:Eq; [discriminate|].
+    rewrite (norm_all_none l n Eq). assumption.
+Qed.
+
+(* the REGENERATED decisions: both conversions normalise negative positions and leave Boolean arrays alone
+   (reverting fix c80a0ec or dc30af2 in the source flips a constant of Gen_c08 and breaks these two lemmas) *)
+Lemma asc_key_normalises k n : asc_key k n = asc_key_with true k n.
+Proof. reflexivity. Qed.
+
+Lemma ascending_key_normalises k n as_array : ascending_key k n as_array = asc_key_with true k n.
+Proof. destruct k, as_array; reflexivity. Qed.
 
 (* ---------- the whole-frame key ---------- *)
 Lemma runs_go_seq k : forall a m s, Z.of_nat s = a + Z.of_nat m ->
@@ -193,7 +246,8 @@ Proof.
 Qed.
 
 (* ---------- from the key to the targets of the ascending walk ---------- *)
-Theorem block_slices_asc_runs {A} (t : tb A) (k : ckey) ps : wf_tb t -> walk_dom k = true ->
+Theorem block_slices_asc_runs {A} (t : tb A) (k : ckey) ps : wf_tb t ->
+  walk_dom k (Z.of_nat (length (flatten t))) = true ->
   key_positions k (Z.of_nat (length (flatten t))) = Ok ps ->
   exists ps', increasing ps' /\ (forall x, In x ps' <-> In x ps) /\
               (forall x, In x ps' -> 0 <= x < Z.of_nat (length (flatten t))) /\
@@ -204,22 +258,32 @@ Proof.
   assert (Hn : 0 <= n) by (unfold n; lia).
   destruct (asc_key_positions k n ps Hn Hdom Hk) as (ps' & E & Hinc & Hsame & Hrange).
   exists ps'. split; [assumption|]. split; [assumption|]. split; [assumption|].
-  unfold block_slices_asc, ncols, tb_index. rewrite index_from_length. fold n.
+  unfold block_slices_asc, ncols, tb_index. rewrite index_from_length. fold n. rewrite asc_key_normalises.
   destruct k as [|i|s|l|m].
   - (* null slice: one target per block *)
-    cbn [asc_key key_to_block_slices]. cbn in E. injection E as <-.
+    cbn [asc_key_with key_to_block_slices]. cbn in E. injection E as <-.
     unfold all_block_slices. rewrite (all_block_slices_from t Hwf 0). unfold n. rewrite Nat2Z.id.
     rewrite block_runs_all by assumption. reflexivity.
-  - unfold key_to_block_slices. cbn [asc_key] in *. unfold tb_index. rewrite index_from_length. fold n. rewrite E.
+  - unfold key_to_block_slices. cbn [asc_key_with] in *. unfold tb_index. rewrite index_from_length. fold n. rewrite E.
     destruct (bundles_of_positions t 0 ps' Hinc Hrange) as (pairs & Ep & Eb & _).
     rewrite Ep. unfold contiguous_pairs. rewrite Eb. reflexivity.
-  - unfold key_to_block_slices. cbn [asc_key] in *. unfold tb_index. rewrite index_from_length. fold n. rewrite E.
+  - unfold key_to_block_slices. cbn [asc_key_with] in *. unfold tb_index. rewrite index_from_length. fold n. rewrite E.
     destruct (bundles_of_positions t 0 ps' Hinc Hrange) as (pairs & Ep & Eb & _).
     rewrite Ep. unfold contiguous_pairs. rewrite Eb. reflexivity.
-  - unfold key_to_block_slices. cbn [asc_key] in *. unfold tb_index. rewrite index_from_length. fold n. rewrite E.
+  - unfold key_to_block_slices. cbn [asc_key_with] in *. unfold tb_index. rewrite index_from_length. fold n. rewrite E.
     destruct (bundles_of_positions t 0 ps' Hinc Hrange) as (pairs & Ep & Eb & _).
     rewrite Ep. unfold contiguous_pairs. rewrite Eb. reflexivity.
-  - unfold key_to_block_slices. cbn [asc_key] in *. unfold tb_index. rewrite index_from_length. fold n. rewrite E.
+  - unfold key_to_block_slices. cbn [asc_key_with] in *. unfold tb_index. rewrite index_from_length. fold n. rewrite E.
     destruct (bundles_of_positions t 0 ps' Hinc Hrange) as (pairs & Ep & Eb & _).
     rewrite Ep. unfold contiguous_pairs. rewrite Eb. reflexivity.
+Qed.
+
+Lemma block_slices_asc_err {A} (t : tb A) (k : ckey) e :
+  walk_dom k (Z.of_nat (length (flatten t))) = true ->
+  key_positions k (Z.of_nat (length (flatten t))) = Err e -> block_slices_asc t k = Err e.
+Proof.
+  intros Hdom Hk. pose proof (asc_key_positions_err k _ e Hdom Hk) as E.
+  unfold block_slices_asc, ncols, tb_index. rewrite index_from_length, asc_key_normalises.
+  destruct k as [|i|s|l|m]; try (cbn in Hk; discriminate);
+    unfold key_to_block_slices; cbn [asc_key_with] in *; unfold tb_index; rewrite index_from_length, E; reflexivity.
 Qed.
